@@ -347,6 +347,44 @@ def fold_dropped(fn):
     return out
 
 
+_UINT = re.compile(r"uint(8|16|32|64)|size_t_dtype")
+
+
+def uint_arith(fn):
+    """[(node, message)]: arithmetic on an unsigned numpy array (a name bound to np.array(..., dtype=np.uint32), or the
+    `sample_set_sizes` a statistics callback receives, which the facade builds as uint32): `n ** 2`, `9 * n * (n - 1)`, `a - b`
+    wrap around silently.  Accepted: the name is first converted (np.array(x, dtype=float), x.astype(float), float(x))."""
+    out = []
+    unsigned, converted = set(), set()
+    for g in [fn] + [x for x in ast.walk(fn) if isinstance(x, ast.FunctionDef) and x is not fn]:
+        for p_ in g.args.posonlyargs + g.args.args:
+            if p_.arg == "sample_set_sizes":
+                unsigned.add(p_.arg)
+    for x in ast.walk(fn):
+        if isinstance(x, ast.Assign) and len(x.targets) == 1 and isinstance(x.targets[0], ast.Name):
+            v, t = x.value, x.targets[0].id
+            if isinstance(v, ast.Call) and any(k.arg == "dtype" and _UINT.search(ast.unparse(k.value)) for k in v.keywords):
+                unsigned.add(t)
+            elif isinstance(v, ast.Name) and v.id in unsigned:
+                unsigned.add(t)             # plain alias
+            elif isinstance(v, ast.Call) and any(isinstance(n_, ast.Name) and n_.id in unsigned for n_ in ast.walk(v)) \
+                    and re.search(r"float", ast.unparse(v)):
+                converted.add(t)
+    unsigned -= converted
+    if not unsigned:
+        return out
+    for g in [fn] + [x for x in ast.walk(fn) if isinstance(x, ast.FunctionDef) and x is not fn]:
+        pass
+    for x in ast.walk(fn):
+        if isinstance(x, ast.BinOp) and isinstance(x.op, (ast.Pow, ast.Mult, ast.Sub)):
+            for side in (x.left, x.right):
+                if isinstance(side, ast.Name) and side.id in unsigned:
+                    out.append((x, "`%s` is arithmetic on the unsigned array `%s`: it wraps around instead of growing (convert to float first)"
+                                % (ast.unparse(x)[:50], side.id)))
+                    break
+    return out[:1]
+
+
 def function_lints(m, qn, fn):
     """[(kind, node, message)] – called from lib_kind3.py_function_lints so that every property's Python scope gets them."""
     out = []
@@ -358,6 +396,7 @@ def function_lints(m, qn, fn):
     out += [("or-none", n, msg) for n, msg in or_none(fn)]
     out += [("alloc-domain", n, msg) for n, msg in alloc_domain(fn)]
     out += [("fold-dropped", n, msg) for n, msg in fold_dropped(fn)]
+    out += [("uint-arith", n, msg) for n, msg in uint_arith(fn)]
     return out
 
 
@@ -671,9 +710,19 @@ def alloc_domain(fn):
             ms = cnt.findall(ast.unparse(first))
             if len(set(ms)) == 1:
                 dom[x.targets[0].id] = ms[0]
+    # names that hold NODE ids: handed on as `nodes=` / `samples=` keyword, or iterated from self.samples()
+    node_ids = set()
+    for x in ast.walk(fn):
+        if isinstance(x, ast.Call):
+            for kw in x.keywords:
+                if kw.arg in ("nodes", "samples", "focal") and isinstance(kw.value, ast.Name):
+                    node_ids.add(kw.value.id)
     for x in ast.walk(fn):
         if isinstance(x, ast.Subscript) and isinstance(x.value, ast.Name) and x.value.id in dom:
             sl = x.slice.elts[0] if isinstance(x.slice, ast.Tuple) and x.slice.elts else x.slice
+            if isinstance(sl, ast.Name) and sl.id in node_ids and dom[x.value.id] == "samples":
+                out.append((x, "`%s` indexes an array with one row per SAMPLE by `%s`, which holds node ids (it is passed on as a "
+                            "nodes= / samples= argument): rows land at the node id, not at the sample's index" % (ast.unparse(x)[:40], sl.id)))
             if isinstance(sl, ast.Slice):
                 for b in (sl.lower, sl.upper):
                     if b is not None:
@@ -712,4 +761,80 @@ def validation_bypass(ctx, py, rule="PY-BYPASS"):
     ok = ve is not None and "self._bypass_validation" in ast.unparse(ve) and "self._validate_row" in ast.unparse(ve)
     ctx.ob(rule, "validate_and_encode_row|guard", ok, m.loc(ve) if ve else m.rel, "validate_and_encode_row calls _validate_row unless _bypass_validation")
     ctx.ob(rule, "instances", n >= 2, m.rel, "%d is_schema_trivial implementations analysed" % n)
+    return n
+
+
+def virtual_root_lists(ctx, py, rule="PY-VIRTUAL-ROOT"):
+    ctx.rule(rule, "the sample-list arrays (left_sample / right_sample / next_sample) are maintained for real nodes only: every Tree "
+                   "method that walks them for a node supplied by the caller is reached for the virtual root only through the roots "
+                   "(Tree.samples maps `u == self.virtual_root` to self.roots before it calls the list walker); otherwise "
+                   "samples(virtual_root) is empty while num_samples(virtual_root) counts every sample")
+    m = py.mod("trees")
+    walker = m.funcs.get("Tree._sample_generator")
+    ctx.ob(rule, "walker", walker is not None and "left_sample" in ast.unparse(walker), m.loc(walker) if walker else m.rel,
+           "Tree._sample_generator walks left_sample / right_sample")
+    n = 0
+    for qn, fn in m.funcs.items():
+        if not qn.startswith("Tree.") or qn == "Tree._sample_generator":
+            continue
+        for c in ast.walk(fn):
+            if isinstance(c, ast.Call) and ast.unparse(c.func) == "self._sample_generator":
+                n += 1
+                src = ast.unparse(fn)
+                ok = re.search(r"==\s*self\.virtual_root|self\.virtual_root\s*==", src) is not None and "self.roots" in src
+                ctx.ob(rule, qn, ok, m.loc(c), "the virtual root is replaced by the roots before the list walker runs" if ok else
+                       "%s hands the caller's node to the sample-list walker without mapping the virtual root to the roots" % qn)
+    ctx.ob(rule, "instances", n >= 1, m.rel, "%d callers of the sample-list walker" % n)
+    return n
+
+
+def sample_row_index(ctx, py, rule="PY-SAMPLE-INDEX", mod="trees", cls="TreeSequence"):
+    """An array with one row per SAMPLE is indexed by sample index, never by node id.  Node-id names are those passed on as
+    nodes= / samples= / focal= keyword arguments; the kind is propagated one call down (self.f(x, ids) makes f's parameter a
+    node-id name)."""
+    ctx.rule(rule, "in TreeSequence methods an array allocated with num_samples rows is not subscripted with a name that holds node ids "
+                   "(a name the same function, or its caller, hands on as nodes= / samples= / focal=): sample k is row k, whatever its "
+                   "node id is – with samples that are not nodes 0..n-1 the rows land elsewhere or out of bounds")
+    m = py.mod(mod)
+    meths = {qn.split(".", 1)[1]: fn for qn, fn in m.funcs.items() if qn.startswith(cls + ".") and qn.count(".") == 1}
+    kinds = {}
+    for nm, fn in meths.items():
+        ids = set()
+        for x in ast.walk(fn):
+            if isinstance(x, ast.Call):
+                for kw in x.keywords:
+                    if kw.arg in ("nodes", "samples", "focal") and isinstance(kw.value, ast.Name):
+                        ids.add(kw.value.id)
+        kinds[nm] = ids
+    # one level down
+    for nm, fn in meths.items():
+        for x in ast.walk(fn):
+            if isinstance(x, ast.Call) and isinstance(x.func, ast.Attribute) and isinstance(x.func.value, ast.Name) and x.func.value.id == "self" \
+                    and x.func.attr in meths:
+                callee_fn = meths[x.func.attr]
+                params = [p_.arg for p_ in callee_fn.args.args if p_.arg != "self"]
+                for i, a_ in enumerate(x.args):
+                    if isinstance(a_, ast.Name) and a_.id in kinds[nm] and i < len(params):
+                        kinds[x.func.attr] = kinds[x.func.attr] | {params[i]}
+    n = 0
+    cnt = re.compile(r"\bnum_samples\b")
+    for nm, fn in sorted(meths.items()):
+        dom = set()
+        for x in ast.walk(fn):
+            if isinstance(x, ast.Assign) and len(x.targets) == 1 and isinstance(x.targets[0], ast.Name) and isinstance(x.value, ast.Call) \
+                    and ast.unparse(x.value.func) in ("np.zeros", "np.ones", "np.empty", "np.full") and x.value.args:
+                a0 = x.value.args[0]
+                first = a0.elts[0] if isinstance(a0, ast.Tuple) and a0.elts else a0
+                if cnt.search(ast.unparse(first)):
+                    dom.add(x.targets[0].id)
+        for x in ast.walk(fn):
+            if isinstance(x, ast.Subscript) and isinstance(x.value, ast.Name) and x.value.id in dom:
+                sl = x.slice.elts[0] if isinstance(x.slice, ast.Tuple) and x.slice.elts else x.slice
+                if isinstance(sl, ast.Name):
+                    n += 1
+                    bad = sl.id in kinds[nm]
+                    ctx.ob(rule, "%s.%s|%s[%s]" % (cls, nm, x.value.id, sl.id), not bad, m.loc(x),
+                           "`%s` is indexed by sample index" % ast.unparse(x)[:40] if not bad else
+                           "`%s`: `%s` has one row per sample and `%s` holds node ids" % (ast.unparse(x)[:40], x.value.id, sl.id))
+    ctx.ob(rule, "instances", True, m.rel, "%d subscripts of per-sample arrays analysed" % n)
     return n
